@@ -563,6 +563,35 @@ def run_inproc(ds, root, label):
     return calc, snapshot(out)
 
 
+def failed_then_valid(ds, root, label):
+    """A calculation whose inputs cannot be loaded (its static table is missing) is attempted and the exception caught — as a driver
+    looping over cases does — from a working directory of our own; then a valid calculation is run WITHOUT any further chdir and
+    writes relative to the working directory it finds.  Returns (cwd_unchanged, {file: bytes} found in OUR working directory)."""
+    import cij.core.calculator as cc
+    bad = os.path.join(root, label, "bad")
+    synth.write_all(bad, ds)
+    os.remove(os.path.join(bad, ds.settings["elast"]["input"]))
+    good = os.path.join(root, label, "data")
+    out = os.path.join(root, label, "out")
+    os.makedirs(out)
+    path = synth.write_all(good, ds)
+    cwd = os.getcwd()
+    os.chdir(out)
+    try:
+        with e2e.quiet():
+            try:
+                cc.Calculator(os.path.join(bad, "settings.yaml"))
+                raised = False
+            except Exception:
+                raised = True
+            here = os.getcwd()
+            calc = cc.Calculator(path)
+            calc.write_output()
+    finally:
+        os.chdir(cwd)
+    return raised, os.path.realpath(here) == os.path.realpath(out), snapshot(out)
+
+
 def other_commands(ds, root, system):
     """`cij run-static` (three modes) and `cij fill` through click's CliRunner in THIS process, on the data set's own files"""
     from click.testing import CliRunner
@@ -800,6 +829,15 @@ def eval_e2e(seed: int, variant: int, thorough: bool, nseeds: int, time_left: fl
                     check("inA2c", refA, write_again(ca2, root, "inA2-after-twin"), "interleave:A-written-after-twin:files-differ",
                           "A.write_output() after its same-named twin C was computed differs from A in a fresh process")
                     del cc
+                # ---- a calculation that FAILED earlier in the process (inputs missing, exception caught by the caller)
+                raised, same_cwd, ff = failed_then_valid(a, root, "inA-after-failed")
+                stats["failed_load_then_valid"] = {"first_raised": raised, "cwd_unchanged": same_cwd}
+                if raised:
+                    if not same_cwd:
+                        fail("history:failed-load-changes-cwd", "after a calculation that failed to load its inputs (exception caught) the process "
+                             "is in another working directory: the next calculation writes its tables elsewhere", None)
+                    check("inA-failed", refA, ff, "history:failed-load-then-run:files-differ",
+                          "A computed after another calculation failed to load its inputs differs from A in a fresh process (files in the caller's working directory)")
                 # ---- other commands of the package earlier in the same process (run-static in every mode, fill): "process history"
                 other = other_commands(a, root, system)
                 stats["other_commands_in_history"] = other
